@@ -18,7 +18,7 @@ AREAS = {
     "instance": {"branches": [2, 4, 5, 6, 12, 13, 14, 15, 16, 31, 33, 41, 42], "shard": 60,
                  "explain": "imodel", "default_case": "(ISendCase (mkICfg true true false false false) (mkEnv [] 0) 0 0 IPanic)"},
     "syncloop": {"branches": [2, 3, 7, 102, 103, 107], "shard": 12,
-                 "explain": "lexplain", "default_case": "(mkLC (mkICfg true true false false false) (mkEnv [] 0) [] 0 [] (mkEnv [] 0))"},
+                 "explain": "lexplain", "default_case": "(mkLC (mkICfg true true false false false) (mkEnv [] 0) [] 0 [] (mkEnv [] 0) 0 0)"},
     "fleet": {"branches": [3], "shard": 40,
               "explain": "fexplain", "default_case": "(mkFC [] [])"},
     "crash": {"branches": [3], "shard": 40,
@@ -26,7 +26,7 @@ AREAS = {
 }
 
 PROPS = {
-    "C14": {"seed": 14, "areas": [("header", 600), ("merge", 450)], "thorough_mult": 8,
+    "C14": {"seed": 14, "areas": [("header", 600), ("merge", 450), ("instance", 200)], "thorough_mult": 8,
             "assumptions": ["timestamps, transaction ids < 2^64 and flag bytes < 256 (Go types uint64/uint8)",
                             "values are byte strings (every element < 256)"],
             "trusted_base": ["modelled: lmdbenv/header/header.go PutBasic/Parse/Skip/getNumExtra/Flags, syncer/iterators.go Merge/Clean/addHeader; Header.Bytes/doBytes (not used by the sync path) is not modelled"]},
@@ -44,9 +44,9 @@ PROPS = {
                             "one DBI at a time; composition over DBIs and with the merge step is in the Instance model (C01/C03)",
                             "known finding F6: live entries with an EMPTY application value are not projected (C11_empty_value_refuted)"],
             "trusted_base": [LMDB_TRUST, "modelled: syncer/shadow.go mainToShadow/shadowToMain, readDBI (syncer/utils.go), strategy.IterUpdate, NativeIterator/PlainIterator"]},
-    "C20": {"seed": 20, "areas": [("dupsort", 600), ("shadow", 300)], "thorough_mult": 8,
+    "C20": {"seed": 20, "areas": [("dupsort", 600), ("shadow", 300), ("instance", 240)], "thorough_mult": 8,
             "assumptions": ["DUPSORT values are at most 511 bytes (LMDB limit)",
-                            "the mirror-cycle clause is checked on the real code by the harness oracle and on the model by the correspondence (ShCaptureDup/ShProjectDup); its Coq theorem is not finished (see DESIGN.md)"],
+                            "C20_mirror_cycle assumes the clock assumption of C11 (stored shadow timestamps below now) and shadow DBIs as LS writes them (deleted => empty value, C14); pairs with an EMPTY value are dropped (finding F6 of C11)"],
             "trusted_base": [LMDB_TRUST, "modelled: syncer/dupsorthack.go, the DUPSORT paths of syncer/shadow.go, strategy.EmptyPut"]},
     "C18": {"seed": 18, "areas": [("instance", 360)], "thorough_mult": 8,
             "assumptions": ["rollback of an aborted write transaction and isolation from concurrent readers are LMDB's (trusted); a full map (MDB_MAP_FULL) surfaces as an error from a put like any other error",
@@ -56,11 +56,11 @@ PROPS = {
             "assumptions": ["'as of one single LMDB transaction' rests on LMDB snapshot isolation (trusted): the dump is a function of one environment value",
                             "values up to a few hundred bytes in the correspondence; megabyte values are not exercised"],
             "trusted_base": [LMDB_TRUST, "modelled: syncer/send.go SendOnce transaction body, readDBI, ReadDBINames order; names/metadata compared by the oracle, name format is C15"]},
-    "C10": {"seed": 10, "areas": [("instance", 300), ("syncloop", 96)], "thorough_mult": 6,
+    "C10": {"seed": 10, "areas": [("instance", 300), ("syncloop", 96), ("shadow", 300)], "thorough_mult": 6,
             "assumptions": ["tomb sweeper disabled (a sweeper transaction is a local writer and triggers a snapshot by design, config.go:254-256)",
                             "fleet-level bound follows from the per-instance statements: after the last application write each instance uploads at most once more per load that found a local change"],
             "trusted_base": [LMDB_TRUST, "Instance/Ids.v abstracts the loop's id bookkeeping; it is evaluated next to the executable machine (Instance/SyncLoop.v), which is compared with the real syncLoop through the verif yield hooks"]},
-    "C03": {"seed": 3, "areas": [("syncloop", 120), ("shadow", 200), ("merge", 300)], "thorough_mult": 6,
+    "C03": {"seed": 3, "areas": [("syncloop", 120), ("shadow", 300), ("merge", 300), ("instance", 200)], "thorough_mult": 6,
             "assumptions": ["known finding F8: an application commit between an empty own write transaction and the following env.Info() (C03_refuted)",
                             "shadow mode records CHANGES between two captures: writing a value back, or creating and deleting a key between two captures, leaves nothing to record",
                             "empty application values: known finding F6 (reported under C11)"],
@@ -68,13 +68,13 @@ PROPS = {
     "C09": {"seed": 9, "areas": [("syncloop", 144)], "thorough_mult": 6,
             "assumptions": ["known finding F8 (C09_refuted)", "Store failures below the retry budget (StorageRetryCount) are retried; exhausting it makes the loop return (the process restarts and uploads at start-up)"],
             "trusted_base": [LMDB_TRUST, "Instance/Ids.v + Instance/SyncLoop.v as for C03"]},
-    "C01": {"seed": 1, "areas": [("fleet", 160), ("merge", 300), ("syncloop", 60)], "thorough_mult": 6,
+    "C01": {"seed": 1, "areas": [("fleet", 160), ("merge", 300), ("syncloop", 60), ("shadow", 200)], "thorough_mult": 6,
             "assumptions": ["tomb sweeper disabled (cutoff 0), as the property states",
                             "applications are monotone per key per instance (a write is at least as new as what the instance holds); in shadow mode instances share one monotone clock (documented operating assumption)",
                             "quiescent = every instance uploaded after its last write and merged such a snapshot of every instance; C09 supplies the first half on the real loop",
                             "the refinement from LoadOnce/SendOnce to the Fleet steps is proved per DBI (C01_refine_load / C01_refine_send) and validated end to end on real fleets by the correspondence (native mode) and the convergence oracle (both modes)"],
             "trusted_base": [LMDB_TRUST, "modelled: Fleet (logical stores), the per-DBI refinement of strategy.Update + NativeIterator.Merge, dump entries"]},
-    "C04": {"seed": 4, "areas": [("fleet", 120), ("merge", 300), ("retention", 60)], "thorough_mult": 6,
+    "C04": {"seed": 4, "areas": [("fleet", 120), ("merge", 300), ("retention", 60), ("instance", 300)], "thorough_mult": 6,
             "assumptions": ["retention part (C04_retention.v): 0 <= RetentionDuration() < 2^63 ns, clock values in 1970..2262; RetentionDuration() (a float32 product) is an input computed by Go; negative / overflowing retention_days is outside the claim (the configuration is not validated by /repo)"],
             "trusted_base": [LMDB_TRUST, "modelled: NativeIterator.Merge stale-marker rule, Retention arithmetic, Fleet joins, capture/dump theorems of C11/C06"]},
     "C05": {"seed": 5, "areas": [("crash", 60), ("cleaner", 150)], "thorough_mult": 5,
